@@ -105,7 +105,15 @@ def trace(rep, tier, seed, clauses):
     raw = os.path.join(sc, "heap_trace.ndjson")
     nhist, maxlen = (250, 30) if tier == "quick" else (4000, 60)
     engine.run_driver("drv_heap.py", ["record", str(seed), str(nhist), str(maxlen), raw], timeout=2400)
-    evs = engine.read_ndjson(raw)
+    evs_all = engine.read_ndjson(raw)
+    crashes = [e for e in evs_all if e["a"] == "CRASH"]
+    evs = [e for e in evs_all if e["a"] != "CRASH"]
+    for cr in crashes:
+        hist = [e for e in evs if e.get("tid") == cr["tid"] and e["a"] != "EOT"]
+        clause = next((c_ for c_ in ("outcome", "write_error", "contents", "rectangular", "structure", "registry", "spurious_refusal", "fp_value", "lookup", "obs_repr") if c_ in clauses), None)
+        if clause:
+            rep.fail(clause, "heap.trace", {"history": [[e["a"], e["x"], e["y"], e["z"], e["w"], e["vs"], e["nm"], e.get("how"), e["res"]] for e in hist],
+                                            "then": cr["act"]}, "the library raised " + cr["error"], "a result or a refusal (the specification enables this call)", direction="trace")
     path = os.path.join(sc, "heap_trace_tlc.ndjson")
     engine.write_ndjson(path, evs)
     r = engine.run_tlc("Trace_Heap", "Trace_Heap.cfg", env={"TRACE_FILE": path}, workers=1, tags=("VERDICT",),
